@@ -37,5 +37,5 @@ def main(tier):
     chk.run("R-ENUMCASE", B.enumcase, r, floor=2)
     chk.run("R-NSPARSE", B.nsparse, r, floor=1)
     chk.run("R-INTRANGE", RG.intrange, r, parts=('backend',), floor=4)
-    chk.run("R-BOUNDARY", RG.boundary, r, floor=130)
+    chk.run("R-BOUNDARY", RG.boundary, r, only_wider=True, floor=130)
     return chk.finish()
